@@ -73,8 +73,18 @@ def build(ctx, case):
     init = [1, 3, 4][:nmix]
     fwd = "KNOBS\n -convergence_tolerance 1e-12\n" + punch
     wconc = {}
+    # one multi-water problem in three offers near-identical initial waters (each alone explains the final water within the smallest uncertainty):
+    # with -minimal only single-water models may then be reported
+    twins = two and not extrap and r.random() < 0.33
     for n_ in init:
-        t_, wconc[n_] = water(r, n_)
+        if twins and n_ != init[0]:
+            t0_ = fwd[fwd.index("SOLUTION %d\n" % init[0]):]
+            ph0 = re.search(r"(?m)^ pH (\S+)", t0_).group(1)
+            wconc[n_] = {e_: c_ * (1 + r.uniform(-0.003, 0.003)) for e_, c_ in wconc[init[0]].items()}
+            balel = re.search(r"(?m)^ (\S+) \S+ charge$", t0_).group(1)
+            t_ = "SOLUTION %d\n temp 25\n pH %s\n units mmol/kgw\n" % (n_, ph0) + "".join(" %s %s%s\n" % (e_, f(c_), " charge" if e_ == balel else "") for e_, c_ in wconc[n_].items())
+        else:
+            t_, wconc[n_] = water(r, n_)
         fwd += t_
     fwd += "END\n"
     if extrap:
